@@ -27,13 +27,23 @@ def gen_case(rng, tier):
             s = rng.randint(gs, max(gs, ge - 10))
             e = rng.randint(s, min(ge, s + 30))
             cfg['preZones'].append((f'PZ{i}', s, e))
-    if rng.random() < 0.06:
+    if rng.random() < 0.1:
         # a predefined zone that does not lie inside GLOBAL (or starts below 0): the definition must be rejected
         gs, ge = 0, (1 << cfg['bits']) - 1
         for z in cfg['preZones']:
             if z[0] == 'GLOBAL':
                 gs, ge = z[1], z[2]
-        cfg['preZones'].append(('PZBAD',) + rng.choice([(gs - 3, gs + 2), (ge - 1, ge + 2), (ge + 1, ge + 4), (-5, 3), (gs - 2, gs - 1)]))
+        if not any(z[0] == 'GLOBAL' for z in cfg['preZones']) and rng.random() < 0.6 and not cfg.get('origin'):
+            ge = ge // 2 + rng.randint(0, 20)                  # GLOBAL narrower than the address width
+            cfg['preZones'] = [z for z in cfg['preZones'] if z[2] <= ge] + [('GLOBAL', 0, ge)]
+        bad = ('PZBAD',) + rng.choice([(gs - 3, gs + 2), (ge - 1, ge + 2), (ge + 1, ge + 4), (-5, 3), (gs - 2, gs - 1), (ge - 1, ge + 2)])
+        # listed in front of, or behind, the GLOBAL entry
+        cfg['preZones'].insert(rng.choice([0, len(cfg['preZones'])]), bad)
+    if rng.random() < 0.5:
+        # the order of the entries of `predefined.memory_zones` carries no meaning (GLOBAL first, last or in between)
+        zs = list(cfg['preZones'])
+        rng.shuffle(zs)
+        cfg['preZones'] = zs
     stmts = P.gen_program(rng, cfg, n_stmts=rng.randint(5, 16), allow_bad=0.03,
                           weights={'memzone': 4, 'org': 4, 'createZone': 2, 'fill': 3, 'data': 3, 'instr': 3, 'label': 1.5,
                                    'zerountil': 1, 'align': 0.7, 'const': 0.7, 'mute': 0.3, 'macro': 1})
